@@ -422,7 +422,7 @@ def case_geometry(rng):
     if rng.uniform() < 0.5:
         plo[0] = lon[-1] + rng.uniform(0.1, 0.9) * 360.0 / nlo  # inside the wrap bin
     return {"part": "geometry", "time": t, "lat": lat, "lon": lon, "fields": fields, "ilat": ilat, "plo": plo,
-            "hs": rng.uniform(0, 3, (nt, nla, nlo))}
+            "hs": rng.uniform(0, 3, (nt, nla, nlo)), "pdata": [None, None, "empty", "first"][int(rng.integers(0, 4))]}
 
 
 def judge_geometry(ctx, c):
@@ -446,7 +446,16 @@ def judge_geometry(ctx, c):
     ctx.case(("geometry", len(names), nlo, float(lon[0])), nontrivial=True,
              sample={"direction_variables": names, "track_lon": plo[:5], "lon_grid": lon[:4]})
     ctx.count("C14.geometry_cases_with_%d_direction_variables" % len(names))
-    ok, out = guarded(ctx, "C14.no-exception", lambda: interpolate_dataset(ds, Track.from_arrays(plat, plo, times, "trk")), c,
+    # the caller may pass periodic_data itself (empty, or naming only some variables): variables whose name contains
+    # "direction" are angles all the same
+    pd_kind = c.get("pdata")
+    kw = {}
+    if pd_kind == "empty":
+        kw = {"periodic_data": {}}
+    elif pd_kind == "first" and names:
+        kw = {"periodic_data": {names[0]: (360, 360)}}
+    ctx.count(f"C14.geometry_periodic_data_argument:{pd_kind}")
+    ok, out = guarded(ctx, "C14.no-exception", lambda: interpolate_dataset(ds, Track.from_arrays(plat, plo, times, "trk"), **kw), c,
                       key="C14:exception:interpolate_dataset")
     if not ok:
         return
